@@ -37,3 +37,12 @@ Proof.
   rewrite (parse_pretty_roundtrip pf v Hw Hn), (parse_render_roundtrip pf v Hw Hn). reflexivity.
 Qed.
 Print Assumptions C03_pretty_and_compact_denote_the_same.
+
+(* with floats: whenever the float printer's text for each float of the document is read back by the number lexer
+   as that float (what ryu's shortest-round-trip output and a correctly rounding reader give; the printer is modelled,
+   not verified, so this stays a hypothesis, stated per float actually occurring in the document), both renderings of
+   the whole document read back as the document.  The hypothesis is satisfiable (float_reads_back_example). *)
+Theorem C03_parse_of_rendering_with_floats : forall pf pretty ok, (forall b, ok b = true -> float_reads_back pf b) ->
+  forall v, wf_shape v = true -> floats_ok ok v = true -> parse_value (render pf pretty 0 v) = Ok (unsign v).
+Proof. exact parse_rendering_floats. Qed.
+Print Assumptions C03_parse_of_rendering_with_floats.
